@@ -144,3 +144,18 @@ CLAIMED['C09'] = ('model_checking',
     'Trusted: TLC, Crossref.tla, the concretiser (object kinds chosen per behaviour, seeded). Cross-document labels are C20; the number '
     'shown in rendered output is C14.',
     TECH)
+CLAIMED['C07'] = ('model_checking',
+    'Digest.tla: TLC generates EVERY document of a bounded NF-DOC grammar (words, \\par, sections of three levels, quote and itemize '
+    'environments, \\item, groups, commands with a text argument; up to 6 items quick / 7 thorough, nesting <= 3 / 4) as the stream of '
+    'levelled, depth-stamped items the digest stage sees, runs the digest protocol (one rule per node class: TeX.parse, SectionUtils.digest, '
+    'Environment.digest, bgroup.digest, digestUntil(item), with push-back) and checks DigestBuildsIntended (the tree equals the author\'s '
+    'containment recorded by the generator), OnceInOrder, SectionsNestByLevel, NeverStuck.  The generated documents (quick: 25000, all with '
+    '<= 4 items plus a seeded sample) are printed as LaTeX with marker words and parsed by the real engine: per word the chain of containers '
+    '(kind + ordinal, paragraphs transparent) and the depth-first word order are compared, and on every real tree: parent links, sections '
+    'containing only paragraphs and deeper sections, no paragraph directly in a paragraph, quote/dash substitution in text but not in \\verb or '
+    'math.  thorough additionally checks the tree clauses on the repository\'s own sample documents.',
+    'DESIGN.md#c07',
+    'Trusted: TLC, the grammar/intended-container rule of Digest.tla, the concretiser. Paragraph grouping itself is not modelled in TLA+ '
+    '(paragraph clauses are checked by the harness on real trees); constructs outside the grammar (tables, floats, math environments) are '
+    'covered by C10/C11.',
+    TECH)
